@@ -1,7 +1,7 @@
 (* Dispatch table for graph construction and queries (c., g., chk.c01, chk.c02 ...). *)
 From Coq Require Import NArith ZArith List Bool String.
 From DBG Require Import Interop.Val Spec.Dna Spec.GraphIndex Spec.Unitig Packed.ExtsModel Algo.Compress Algo.GraphModel
-  Algo.Recompress Check.GraphCheck.
+  Algo.Recompress Check.GraphCheck Check.PayloadOrder.
 Import ListNotations.
 Open Scope N_scope.
 
@@ -45,6 +45,9 @@ Definition graph_ops : list (string * handler) :=
             let K := N.to_nat k in
             Some (VL [ofbool (chk_partition K s T ns); ofbool (chk_steps K s T ns); ofbool (chk_payload K s T ns);
                       ofbool (chk_terminal_exts K s T ns)]) | _, _, _ => None end | _ => None end);
+    ("chk.c01.order"%string, fun a => match a with [VN k; st; VL tbl; VL nodes] =>
+        match vbool st, omap v_entry tbl, omap v_node nodes with
+        | Some s, Some T, Some ns => Some (ofbool (chk_payload_order (N.to_nat k) s T ns)) | _, _, _ => None end | _ => None end);
     ("chk.c02"%string, fun a => match a with [VN k; st; VN mode; VL tbl; VL nodes] =>
         match vbool st, omap v_entry tbl, omap v_node nodes with
         | Some s, Some T, Some ns => Some (ofbool (chk_c02 (N.to_nat k) s mode T ns)) | _, _, _ => None end | _ => None end)
